@@ -159,7 +159,9 @@ def check_str(model: Model, report: Report, rule: str) -> None:
                 if r is not msg:
                     bad = f"str(error) without a token is {describe(r)!r}, expected the message"
                 continue
-            parts = list(r.args) if isinstance(r, Term) and r.op == "fstr" else None
+            from ..harness import str_parts
+
+            parts = str_parts(r) if isinstance(r, Term) else None
             if parts is None:
                 bad = f"str(error) is {describe(r)!r}, expected message + ', line L, column C'"
                 continue
